@@ -77,12 +77,13 @@ Print Assumptions C60_delivery_trichotomy.
 
 (* The bypass clause at full strength - "with bypass enabled, an ICAP failure that happens before any adapted content
    was used yields the virgin message" - is FALSE for the code as it is: bypass=1, RESPMOD, 10-byte body, preview 4,
-   the server answers ICAP 500 after the preview: no adapted head or byte ever existed, the transaction ends with an
-   error answer and the client gets ERR_ICAP_FAILURE (known finding C60-bypass-lost-after-icap-head). *)
+   the server answers `ICAP/1.0 200 OK` after the preview and closes inside the encapsulated HTTP head: no adapted head
+   was completed or forwarded and no adapted byte accepted, yet the transaction ends with an error answer and the
+   client gets ERR_ICAP_FAILURE (known finding C60-bypass-lost-after-200-head: handle200Ok stops the backup). *)
 Theorem C60_bypass_on_failure_refuted :
   exists c evs, c_bypass c = true /\
     let x := run (init c) evs in
-    ad_header (ad x) <> Some SrcAdapted /\ ad_in (ad x) = [] /\ stopped (job x) = true /\
+    o_body (out x) = [] /\ ad_in (ad x) = [] /\ stopped (job x) = true /\
     o_answer (out x) = Some AnsError /\ deliver x = DError.
 Proof. exact bypass_refuted. Qed.
 Print Assumptions C60_bypass_on_failure_refuted.
@@ -103,6 +104,14 @@ Print Assumptions C60_bypass_on_thrown_failure_partial.
 Example C60_ex_bypass_on_close :
   let x := run (init (cfg_demo true)) (evs_demo [EvEof]) in deliver x = DMessage SrcVirgin true vbody_demo true.
 Proof. exact bypass_close_example. Qed.
+(* an ICAP error status inside the preview: bypassed since /repo 0ccad7c (former finding), an error without bypass *)
+Example C60_ex_bypass_on_icap_status :
+  let x := run (init (cfg_demo true)) (evs_demo [EvRead [TIcapHead 500 HNone false false]]) in
+  deliver x = DMessage SrcVirgin true vbody_demo true.
+Proof. exact bypass_status_example. Qed.
+Example C60_ex_no_bypass_icap_status_is_error :
+  let x := run (init (cfg_demo false)) (evs_demo [EvRead [TIcapHead 500 HNone false false]]) in deliver x = DError.
+Proof. exact nobypass_status_example. Qed.
 Example C60_ex_no_bypass_is_error :
   let x := run (init (cfg_demo false)) (evs_demo [EvEof]) in deliver x = DError.
 Proof. exact nobypass_close_example. Qed.
